@@ -51,20 +51,31 @@ func (tmgc *TCPMuxGroupCtl) Listen(
 	multiplexer, group, groupKey string,
 	routeConfig vhost.RouteConfig,
 ) (l net.Listener, err error) {
-	tmgc.mu.Lock()
-	tcpMuxGroup, ok := tmgc.groups[group]
-	if !ok {
-		tcpMuxGroup = NewTCPMuxGroup(tmgc)
-		tmgc.groups[group] = tcpMuxGroup
-	}
-	tmgc.mu.Unlock()
+	for {
+		tmgc.mu.Lock()
+		tcpMuxGroup, ok := tmgc.groups[group]
+		if !ok {
+			tcpMuxGroup = NewTCPMuxGroup(tmgc)
+			tmgc.groups[group] = tcpMuxGroup
+		}
+		tmgc.mu.Unlock()
 
-	switch v1.TCPMultiplexerType(multiplexer) {
-	case v1.TCPMultiplexerHTTPConnect:
-		return tcpMuxGroup.HTTPConnectListen(ctx, group, groupKey, routeConfig)
-	default:
-		err = fmt.Errorf("unknown multiplexer [%s]", multiplexer)
-		return
+		switch v1.TCPMultiplexerType(multiplexer) {
+		case v1.TCPMultiplexerHTTPConnect:
+			var ln *TCPMuxGroupListener
+			ln, err = tcpMuxGroup.HTTPConnectListen(ctx, group, groupKey, routeConfig)
+			if err == errGroupClosed {
+				// the last member left between the lookup and the join: use a fresh group
+				continue
+			}
+			if err != nil {
+				return nil, err
+			}
+			return ln, nil
+		default:
+			err = fmt.Errorf("unknown multiplexer [%s]", multiplexer)
+			return
+		}
 	}
 }
 
@@ -88,6 +99,7 @@ type TCPMuxGroup struct {
 	tcpMuxLn net.Listener
 	lns      []*TCPMuxGroupListener
 	ctl      *TCPMuxGroupCtl
+	closed   bool
 	mu       sync.Mutex
 }
 
@@ -177,7 +189,8 @@ func (tmg *TCPMuxGroup) CloseListener(ln *TCPMuxGroupListener) {
 			break
 		}
 	}
-	if len(tmg.lns) == 0 {
+	if len(tmg.lns) == 0 && !tmg.closed {
+		tmg.closed = true
 		close(tmg.acceptCh)
 		tmg.tcpMuxLn.Close()
 		tmg.ctl.RemoveGroup(tmg.group)
